@@ -244,6 +244,10 @@ package fiber
 //@ ..   (!segs[s].IsParam ==> dp0[toffK(key, s):toffK(key, s + 1)] == segs[s].Const[:toffK(key, s + 1) - toffK(key, s)]))
 
 // parserMatches: the answer of getMatch (a deterministic function of the parser and the paths).
+// what register/parseRoute establish for a route without parameters (hypothesis of a conditional clause of match)
+//@ macro literalRouteWF(r) = len(r.routeParser.segs) > 0 && !r.routeParser.segs[0].IsParam && r.routeParser.segs[0].Const == r.path && (r.root ==> r.path == "/")
+// the first literal segment seg of a pattern against the detection path dp (see getMatch)
+//@ macro firstLiteral(seg, dp) = (seg.Length <= len(dp) && dp[:seg.Length] == seg.Const) || (seg.HasOptionalSlash && len(dp) == seg.Length - 1 && dp == seg.Const[:seg.Length - 1])
 //@ fn parserMatches(p ref, dp string, path string, partial bool, ep int) bool
 //@ func (*routeParser).getMatch
 //@   props C02 C05 C07
@@ -268,6 +272,8 @@ package fiber
 //@     invariant tiled-so-far: forallI(key, tileDefK(key, parser.segs, params, len(old(detectionPath)), rangeindex + 1) ==>
 //@ ..      toffK(key, rangeindex + 1) == consumed(old(detectionPath), detectionPath) &&
 //@ ..      forall(s, 0, rangeindex + 1, tileOK(key, parser.segs, params, old(detectionPath), old(path), s)))
+//@     invariant [C01] nothing-consumed-before-the-first-segment: rangeindex == -1 ==> detectionPath == old(detectionPath)
+//@     invariant [C01] first-literal-is-a-prefix: rangeindex >= 0 && !parser.segs[0].IsParam ==> firstLiteral(parser.segs[0], old(detectionPath))
 //@   loop 2
 //@     invariant checked-so-far: forall(j, 0, rangeindex + 1, checkOK(segment.Constraints[j], params[paramsIterator], epoch))
 //@   ensures values-ok: result ==> forall(s, 0, len(parser.segs), parser.segs[s].IsParam ==> valueOK(parser.segs[s], params[pcount(parser.segs, s)]))
@@ -278,6 +284,9 @@ package fiber
 //@   ensures tiling: result ==> forallI(key, tileDefK(key, parser.segs, params, len(detectionPath), len(parser.segs)) ==>
 //@ ..      forall(s, 0, len(parser.segs), tileOK(key, parser.segs, params, detectionPath, path, s)) &&
 //@ ..      (partialCheck || toffK(key, len(parser.segs)) == len(detectionPath)))
+// C01 (index transparency, request side): a pattern that starts with a literal only matches detection paths that start with
+// that literal - or, when the literal ends in an optional slash, that ARE the literal without the slash.
+//@   ensures [C01] first-literal-is-a-prefix: result && len(parser.segs) > 0 && !parser.segs[0].IsParam ==> firstLiteral(parser.segs[0], detectionPath)
 
 //@ macro rootShortcut(r, dp) = (r.root && len(dp) == 1 && dp[0] == '/')
 //@ macro parserDecides(r, res, dp) = (res && len(r.Params) > 0 && !r.star && !rootShortcut(r, dp))
@@ -302,6 +311,17 @@ package fiber
 // a pattern without parameters is compared as text: the whole detection path for an endpoint, a prefix for middleware
 //@   ensures [C02] literal-route: result && len(r.Params) == 0 && !r.star && !rootShortcut(r, detectionPath) ==>
 //@ ..      ite(r.use, ite(r.root, detectionPath[0] == '/', len(detectionPath) >= len(r.path) && detectionPath[:len(r.path)] == r.path), detectionPath == r.path)
+// C01 (index transparency, request side): a parameterised route whose pattern starts with a literal is only ever needed in
+// bucket 0 or in the bucket of the request's own tree hash (rhash: the key buildTree files the route under, hash3 of the
+// detection path: the key configDependentPaths computes for the request) - the 3-byte literal with an optional slash
+// ("/a/:id?" against "/a") is the case that forces such routes into bucket 0.
+//@   ensures [C01] parser-match-only-in-own-bucket: result && len(r.Params) > 0 && !r.star && !(r.root && len(detectionPath) == 1 && detectionPath[0] == '/') &&
+//@ ..   len(r.routeParser.segs) > 0 && !r.routeParser.segs[0].IsParam ==> rhash(r) == 0 || rhash(r) == hash3(detectionPath)
+// The same for routes without parameters, star and root routes - CONDITIONAL on what registration has to establish (not
+// discharged here: the link between the literal path and the parsed pattern is parseRoute's, C03): the pattern of a
+// literal route starts with a literal segment that is the route's path. (Star and root-on-"/" routes match whatever the
+// hash is: that they are filed under 0 is a fact about their patterns "/*" and "/", not about match.)
+//@   ensures [C01] literal-match-only-in-own-bucket: result && len(r.Params) == 0 && !r.star && literalRouteWF(r) ==> rhash(r) == 0 || rhash(r) == hash3(detectionPath)
 
 // ---------------------------------------------------------------------------------------------
 // C01: dispatch = first match in registration order; the scan resumes where it stopped
@@ -313,8 +333,7 @@ package fiber
 //@ macro dpOf(c) = str(c.detectionPath)
 //@ macro pathOf(c) = str(c.path)
 
-//@ func (*App).methodExist assumed
-//@   modifies c.indexRoute, heap(E_string), respHdr, respSet
+// (methodExist: checked contract in zz_contracts_c01idx_verif.go)
 
 //@ func NewError assumed pure fresh
 //@   ensures carries-code: result.Code == code
@@ -394,8 +413,7 @@ package fiber
 //@   ensures ciHandler == old(ciHandler)[recv := handler]
 //@ func CustomCtx.Method(recv, override) assumed pure
 //@ func CustomCtx.getPathOriginal(recv) assumed pure
-//@ func (*App).methodExistCustom assumed
-//@   modifies ciIdx, heap(E_string), respHdr, respSet
+// (methodExistCustom: checked contract in zz_contracts_c01idx_verif.go)
 
 // nextCustom does not skip mount markers (next does): it relies on the start-up splice having replaced them.
 //@ func (*App).nextCustom
@@ -404,6 +422,9 @@ package fiber
 //@   assumes trees-wf: wfTrees(app)
 //@   assumes no-mount-markers: forallI(m, forallI(h, 0 <= m && m < len(app.treeStack) ==> forall(i, 0, len(app.treeStack[m][h]), !app.treeStack[m][h][i].mount)))
 //@   assumes resume-position: ciIdx[c] >= -1
+// (the next two are needed by the 405 scan, which reads the index through c.App() for every configured method; next assumes the same)
+//@   assumes ctx-of-this-app: ctxApp(c) == app
+//@   assumes one-tree-per-method: len(app.treeStack) == len(app.config.RequestMethods)
 //@   loop 1
 //@     invariant position: old(ciIdx)[c] <= ciIdx[c] && ciMatched[c] == old(ciMatched)[c]
 //@     invariant skipped-do-not-match: forall(k, old(ciIdx)[c] + 1, ciIdx[c] + 1, !matches(tree[k], cdp(c, epoch), cpath(c, epoch), epoch))
